@@ -77,6 +77,17 @@ MODEL = {
     (MT, 'TextRenderer for MonoTextStyle::draw_string'): 'draw_string_plain_ok (and line_elements_ok)',
     (MT, 'TextRenderer for MonoTextStyle::draw_whitespace'): 'draw_whitespace_ok',
     (MT, 'TextRenderer for MonoTextStyle::measure_string'): 'measure_string_ok',
+    (P, 'Index for Point::index'): 'point_index_ok', (S, 'Index for Size::index'): 'point_index_ok',
+    (P, 'From for Point::from#2'): 'from_array2_ok', (P, 'From for Point::from#3'): 'from_array2_ok',
+    (P, 'From for Point::from#4'): 'from_array2_ok', (P, 'From for Point::from#5'): 'from_array2_ok',
+    (S, 'From for Size::from#2'): 'from_array2_ok', (S, 'From for Size::from#3'): 'from_array2_ok',
+    (S, 'From for Size::from#4'): 'from_array2_ok', (S, 'From for Size::from#5'): 'from_array2_ok',
+    (P, 'TryFrom for ( u32 , u32 )::try_from'): 'try_from_ok', (P, 'TryFrom for Point::try_from'): 'try_from_ok',
+    (P, 'TryFrom for [ u32 ; 2 ]::try_from'): 'try_from_ok', (P, 'TryFrom for Point::try_from#2'): 'try_from_ok (and from_array2_ok)',
+    (P, 'TryFrom for Point::try_from#3'): 'try_from_ok (and from_array2_ok)',
+    (TR, 'Triangle::from_slice'): 'tri_from_slice_ok', (TR, 'Triangle::sorted_clockwise'): 'sorted_clockwise_ok',
+    (TR, 'Triangle::is_collapsed'): 'is_collapsed_step_ok', (IR, 'ImageRaw::new_const'): 'image_new_const_ok',
+    (LE, 'OriginLinearEquation::with_angle'): 'with_angle_ok',
     (CO, 'Cropped::new'): 'cropped_new_ok', (CO, 'Iterator for Cropped::next'): 'cropped_next_ok',
 }
 
